@@ -213,10 +213,35 @@ func checkUnorderedSources(r *Run, prog *Program, a *Anchors, pfx string) {
 					case isReflectMethod(callee, "MapKeys"):
 						n++
 						ok, shape, why := classifyKeySlice(prog, fn, x)
+						if !ok {
+							// every key collected into a slice that is sorted before use
+							for i, kc := range keyCollections(fn) {
+								if mk, isC := kc.app.Call.Args[1].(*ssa.Slice); isC && mk != nil {
+									if usesCall(kc.app, x) {
+										if ok2, shape2, why2 := collectThenSorted(prog, &keyCollections(fn)[i]); ok2 {
+											ok, shape, why = true, shape2, ""
+										} else {
+											why = why2
+										}
+									}
+								}
+							}
+						}
 						r.Check(pfx+".unordered-source", fn.Name()+":MapKeys", prog.pos(x.Pos()), ok, okInfo(ok, shape, why))
 					case isReflectMethod(callee, "MapRange"):
 						n++
 						ok, shape, why := classifyMapIter(prog, fn, x)
+						if !ok {
+							for i, kc := range keyCollections(fn) {
+								if usesCall(kc.app, x) {
+									if ok2, shape2, why2 := collectThenSorted(prog, &keyCollections(fn)[i]); ok2 {
+										ok, shape, why = true, shape2, ""
+									} else {
+										why = why2
+									}
+								}
+							}
+						}
 						r.Check(pfx+".unordered-source", fn.Name()+":MapRange", prog.pos(x.Pos()), ok, okInfo(ok, shape, why))
 					case callee != nil && callee.Pkg != nil && callee.Pkg.Pkg.Path() == "maps" && (callee.Name() == "Keys" || callee.Name() == "Values" || callee.Name() == "All"):
 						n++
@@ -602,4 +627,28 @@ func init() {
 		r.Assume = append(r.Assume, "sort.Slice with a strict total order yields a unique order for distinct keys")
 		sort.Strings(r.Assume)
 	})
+}
+
+// usesCall: the element appended by app is derived from the call src (the MapKeys / MapRange whose entries it collects).
+func usesCall(app *ssa.Call, src *ssa.Call) bool {
+	elem := singleVariadic(app.Call.Args[1])
+	for i := 0; i < 6 && elem != nil; i++ {
+		if elem == ssa.Value(src) {
+			return true
+		}
+		switch x := elem.(type) {
+		case *ssa.Call:
+			if len(x.Call.Args) == 0 {
+				return false
+			}
+			elem = x.Call.Args[0]
+		case *ssa.UnOp:
+			elem = x.X
+		case *ssa.IndexAddr:
+			elem = x.X
+		default:
+			return false
+		}
+	}
+	return false
 }
